@@ -9,9 +9,11 @@ import BC.Real
 import Mathlib.Tactic.FieldSimp
 import BC.Model.Traj
 import BC.Lemmas.Filter
+import BC.Lemmas.Loop
+import BC.Lemmas.C11
 
 namespace BC.Props.C11
-open BC BC.Model
+open BC BC.Model BC.Lemmas.Loop BC.Lemmas.C11 BC.Lemmas.C02
 
 /-- **C11_iterate_state** (full): the projectile state, wind-sock state and the step by-products after
     one loop iteration are those of the physical step alone — whatever the filter flags, the recording
@@ -298,5 +300,242 @@ theorem C11_time_step_keeps_distance_rows (f g : TFilter ℝ)
           cases g.filter.range <;> simp
         rw [if_pos h2, if_pos h1]
       · simp at h
+
+/-! ### the extra-data run simulates the plain run (lifting `C11_extra_superset_step` to whole runs) -/
+
+/-- the two loop states of a plain (mask RANGE) and an extra-data (mask ALL) run of the same shot, side by side -/
+structure Sim (a b : LoopSt ℝ) : Prop where
+  s : a.s = b.s
+  ws : a.ws = b.ws
+  drag : a.drag = b.drag
+  mach : a.mach = b.mach
+  density : a.density = b.density
+  speed : a.speed = b.speed
+  lastX : a.lastX = b.lastX
+  flt : SameButMask a.flt b.flt
+  fa : a.flt.filter = fRANGE
+  fb : b.flt.filter = fALL
+  /-- the plain rows are exactly the extra rows that carry the RANGE bit … -/
+  rows : a.rows = b.rows.filter (fun row => row.flag.range)
+  /-- … and every other extra row is an event row -/
+  events : ∀ row ∈ b.rows, row.flag.range = false → (row.flag.zeroUp || row.flag.zeroDown || row.flag.mach) = true
+
+/-- the recorder's part of `C11_extra_superset_iterate`: from the results `A`, `B` of `shouldRecord` in the two runs,
+    related as `C11_extra_superset_step` says, to the filter and rows after `recordStep` -/
+private theorem recOut_sim (r : Run ℝ) (drag density : ℝ) (rowsA rowsB : List (Row ℝ))
+    (A B : TFilter ℝ × Option (BaseTraj ℝ)) (frA : TFilter ℝ × List (Row ℝ))
+    (hS : SameButMask A.1 B.1)
+    (hsome : A.2.isSome → B.2 = A.2)
+    (hnone : A.2 = none → B.2.isSome → B.1.currentFlag.range = false ∧
+        (B.1.currentFlag.zeroUp || B.1.currentFlag.zeroDown || B.1.currentFlag.mach) = true)
+    (hrange : A.2.isSome → A.1.currentFlag.range = true)
+    (hrows : rowsA = rowsB.filter (fun row => row.flag.range))
+    (hev : ∀ row ∈ rowsB, row.flag.range = false → (row.flag.zeroUp || row.flag.zeroDown || row.flag.mach) = true)
+    (ha : recOut r drag rowsA density A = .ok frA) :
+    (∃ frB, recOut r drag rowsB density B = .ok frB ∧ frA.1 = A.1 ∧ frB.1 = B.1 ∧
+        frA.2 = frB.2.filter (fun row => row.flag.range) ∧
+        ∀ row ∈ frB.2, row.flag.range = false → (row.flag.zeroUp || row.flag.zeroDown || row.flag.mach) = true) ∨
+    recOut r drag rowsB density B = .error .zeroDiv := by
+  obtain ⟨fA, dA⟩ := A
+  obtain ⟨fB, dB⟩ := B
+  have hcf : fA.currentFlag = fB.currentFlag := by
+    have := congrArg TFilter.currentFlag hS
+    exact this.symm
+  simp only at hsome hnone hrange hcf
+  cases dA with
+  | some d =>
+    have hB : dB = some d := hsome rfl
+    subst hB
+    have hr : fA.currentFlag.range = true := hrange rfl
+    simp only [recOut, ← hcf] at ha ⊢
+    cases hrow : mkRow r d.time d.pos d.vel d.vel.mag d.mach density drag fA.currentFlag with
+    | none => simp [hrow] at ha
+    | some row =>
+      simp only [hrow, Except.ok.injEq] at ha ⊢
+      subst ha
+      have hflag : row.flag.range = true := by rw [mkRow_flag hrow]; exact hr
+      refine Or.inl ⟨_, rfl, rfl, rfl, ?_, ?_⟩
+      · simp [hflag, hrows]
+      · intro row' hm hf
+        rcases List.mem_cons.1 hm with rfl | hm
+        · rw [hflag] at hf; cases hf
+        · exact hev _ hm hf
+  | none =>
+    simp only [recOut, Except.ok.injEq] at ha
+    subst ha
+    cases dB with
+    | none =>
+      exact Or.inl ⟨_, rfl, rfl, rfl, hrows, hev⟩
+    | some d =>
+      obtain ⟨h1, h2⟩ := hnone rfl rfl
+      cases hrow : mkRow r d.time d.pos d.vel d.vel.mag d.mach density drag fB.currentFlag with
+      | none => exact Or.inr (by simp only [recOut, hrow])
+      | some row =>
+        have hflag : row.flag = fB.currentFlag := mkRow_flag hrow
+        refine Or.inl ⟨(fB, row :: rowsB), by simp only [recOut, hrow], rfl, rfl, ?_, ?_⟩
+        · simp [hflag, h1, hrows]
+        · intro row' hm hf
+          rcases List.mem_cons.1 hm with rfl | hm
+          · rw [hflag]; exact h2
+          · exact hev _ hm hf
+
+/-- **C11_extra_superset_iterate** (full): one loop iteration preserves the simulation (or the extra-data run
+    stops with the division error of `create_trajectory_row` on a row only it records). -/
+theorem C11_extra_superset_iterate (r : Run ℝ) (sf : Nat) (a b a' : LoopSt ℝ) (hsim : Sim a b)
+    (ha : iterate r fRANGE sf a = .ok a') :
+    (∃ b', iterate r fALL sf b = .ok b' ∧ Sim a' b') ∨ iterate r fALL sf b = .error .zeroDiv := by
+  obtain ⟨p, fltA, rowsA, hp, hrec, hlim, rfl⟩ := iterate_ok_inv ha
+  have hpb : physStep r b.s b.ws = some p := by rw [← hsim.s, ← hsim.ws]; exact hp
+  rw [iterate_eq hpb hlim, recordStep_eq (by decide)]
+  rw [recordStep_eq (by decide)] at hrec
+  -- the two filters handed to `shouldRecord`
+  have hcl : SameButMask ({ a.flt with currentFlag := fNONE } : TFilter ℝ) { b.flt with currentFlag := fNONE } :=
+    by
+    have h := congrArg (fun f : TFilter ℝ => ({ f with currentFlag := fNONE } : TFilter ℝ)) hsim.flt
+    exact h
+  obtain ⟨hS, hfa, hfb, hsome, hnone⟩ := C11_extra_superset_step _ _ hcl hsim.fa hsim.fb rfl sf a.s.pos a.s.vel
+    p.mach a.s.time
+  have hrange := shouldRecord_some_range ({ a.flt with currentFlag := fNONE } : TFilter ℝ) hsim.fa sf a.s.pos a.s.vel
+    p.mach a.s.time
+  rw [← hsim.s, ← hsim.drag]
+  rcases recOut_sim r a.drag p.density a.rows b.rows _ _ (fltA, rowsA) hS hsome hnone hrange hsim.rows hsim.events hrec
+    with ⟨frB, hB, h1, h2, h3, h4⟩ | hB
+  · left
+    rw [hB]
+    refine ⟨_, rfl, ?_⟩
+    simp only at h1
+    exact
+      { s := rfl, ws := rfl, drag := rfl, mach := rfl, density := rfl, speed := rfl, lastX := rfl
+        flt := by
+          show SameButMask fltA frB.1
+          rw [h1, h2]; exact hS
+        fa := by
+          show fltA.filter = fRANGE
+          rw [h1]; exact hfa
+        fb := by
+          show frB.1.filter = fALL
+          rw [h2]; exact hfb
+        rows := h3
+        events := h4 }
+  · right
+    rw [hB]
+
+/-- **C11_extra_superset** (full, induction over the loop): a completed extra-data run contains every row of the
+    plain run of the same request, in order (the plain rows are exactly its rows flagged RANGE), and every additional
+    row is flagged as an event (ZERO_UP, ZERO_DOWN or MACH).  The only way the extra-data run can fail where the plain
+    one completes is the division error of `create_trajectory_row` (Mach 1 = 0) on a row that only it records. -/
+theorem C11_extra_superset (r : Run ℝ) (sf : Nat) (bound maxRange : ℝ) (fuel : Nat) (a b a' : LoopSt ℝ)
+    (hsim : Sim a b) (ha : loop r fRANGE sf bound maxRange fuel a = .ok a') :
+    (∃ b', loop r fALL sf bound maxRange fuel b = .ok b' ∧ Sim a' b') ∨
+    loop r fALL sf bound maxRange fuel b = .error .zeroDiv := by
+  induction fuel generalizing a b with
+  | zero => simp [loop] at ha
+  | succ fuel ih =>
+    unfold loop at ha ⊢
+    rw [← hsim.s, ← hsim.lastX]
+    split_ifs at ha ⊢ with hc
+    · cases hit : iterate r fRANGE sf a with
+      | error e => simp [hit] at ha
+      | ok a1 =>
+        simp only [hit] at ha
+        rcases C11_extra_superset_iterate r sf a b a1 hsim hit with ⟨b1, hb1, hsim1⟩ | hb
+        · simp only [hb1]
+          exact ih a1 b1 hsim1 ha
+        · right
+          simp only [hb]
+    · cases ha
+      exact Or.inl ⟨b, rfl, hsim⟩
+
+/-- the start states of the plain and the extra-data run of the same request are in `Sim` -/
+theorem C11_start_sim (r : Run ℝ) (e step ts : ℝ) : Sim (startSt r e step fRANGE ts) (startSt r e step fALL ts) :=
+  { s := rfl, ws := rfl, drag := rfl, mach := rfl, density := rfl, speed := rfl, lastX := rfl
+    flt := rfl, fa := rfl, fb := rfl, rows := rfl
+    events := by intro row hm; cases hm }
+
+/-- the event bits of a row's flag -/
+def isEvent (row : Row ℝ) : Bool := row.flag.zeroUp || row.flag.zeroDown || row.flag.mach
+
+/-- **C11_extra_superset_rows_tail** (full, closing row included): for the same request, when the plain run
+    (`integrate … fRANGE`) completes with `rowsP`, the extra-data run (`integrate … fALL`) either stops with the
+    division error of `create_trajectory_row`, or completes with `rowsX` such that
+    * `rowsP` is the list of the RANGE-flagged rows of `rowsX`, in order, followed by `tail`, where `tail` is empty or
+      is the single closing flag-NONE row (`len(ranges) < 2` branch: the plain run recorded fewer than two rows);
+    * every row of `rowsX` without the RANGE bit is an event row (ZERO_UP, ZERO_DOWN or MACH), or it is that same
+      closing flag-NONE row (the extra-data run also recorded fewer than two rows).
+    NB in the corner case where the plain run appends the closing row but the extra-data run recorded ≥ 2 rows, the
+    closing row of the plain result is NOT in the extra-data result. -/
+theorem C11_extra_superset_rows_tail (r : Run ℝ) (e maxRange step ts : ℝ) (fuel sf : Nat) (rowsP : List (Row ℝ))
+    (hP : integrate r e maxRange step fRANGE ts fuel sf = .ok rowsP) :
+    integrate r e maxRange step fALL ts fuel sf = .error .zeroDiv ∨
+    ∃ rowsX tail, integrate r e maxRange step fALL ts fuel sf = .ok rowsX ∧
+      rowsP = rowsX.filter (fun row => row.flag.range) ++ tail ∧
+      (tail = [] ∨ ∃ row, tail = [row] ∧ row.flag = fNONE) ∧
+      ∀ row ∈ rowsX, row.flag.range = false → isEvent row = true ∨ (row.flag = fNONE ∧ tail = [row]) := by
+  obtain ⟨a', hloopA, hcl⟩ := integrate_ok_inv hP
+  rw [integrate_eq]
+  rcases C11_extra_superset r sf _ maxRange fuel _ _ a' (C11_start_sim r e step ts) hloopA with
+    ⟨b', hloopB, hsim⟩ | hB
+  swap
+  · left; rw [hB]
+  rw [hloopB]
+  have hlen : a'.rows.length ≤ b'.rows.length := by
+    rw [hsim.rows]; exact List.length_filter_le _ _
+  rcases hcl with ⟨h2, rfl⟩ | ⟨h2, row, hrow, rfl⟩
+  · -- no closing row in either run
+    right
+    refine ⟨b'.rows.reverse, [], ?_, ?_, Or.inl rfl, ?_⟩
+    · simp only [closeRows, if_pos (le_trans h2 hlen)]
+    · rw [List.append_nil, List.filter_reverse, hsim.rows]
+    · intro row hm hf
+      exact Or.inl (hsim.events row (List.mem_reverse.1 hm) hf)
+  · have hrf : row.flag = fNONE := mkRow_flag hrow
+    have hrr : row.flag.range = false := by rw [hrf]; rfl
+    by_cases hb2 : 2 ≤ b'.rows.length
+    · -- the plain run closes with a flag-NONE row, the extra-data run does not
+      right
+      refine ⟨b'.rows.reverse, [row], ?_, ?_, Or.inr ⟨row, rfl, hrf⟩, ?_⟩
+      · simp only [closeRows, if_pos hb2]
+      · rw [List.filter_reverse, ← hsim.rows, List.reverse_cons]
+      · intro row' hm hf
+        exact Or.inl (hsim.events row' (List.mem_reverse.1 hm) hf)
+    · -- both close with the same flag-NONE row
+      have hrowB : mkRow r b'.s.time b'.s.pos b'.s.vel b'.speed b'.mach b'.density b'.drag fNONE = some row := by
+        rw [← hsim.s, ← hsim.speed, ← hsim.mach, ← hsim.density, ← hsim.drag]; exact hrow
+      right
+      refine ⟨(row :: b'.rows).reverse, [row], ?_, ?_, Or.inr ⟨row, rfl, hrf⟩, ?_⟩
+      · simp only [closeRows, if_neg hb2, hrowB]
+      · rw [List.reverse_cons, List.reverse_cons, List.filter_append, List.filter_reverse, ← hsim.rows]
+        simp [hrr]
+      · intro row' hm hf
+        rcases List.mem_cons.1 (List.mem_reverse.1 hm) with rfl | hm
+        · exact Or.inr ⟨hrf, rfl⟩
+        · exact Or.inl (hsim.events row' hm hf)
+
+/-- **C11_extra_superset_rows** (full): for the same request, when the plain run completes without having to append
+    the closing flag-NONE row (it recorded at least two rows, i.e. all its rows are flagged RANGE), the extra-data
+    run — unless it stops with the division error of `create_trajectory_row` on a row only it records — returns a
+    list whose RANGE-flagged rows are exactly the rows of the plain run, in order, all other rows being event rows
+    (ZERO_UP, ZERO_DOWN or MACH). -/
+theorem C11_extra_superset_rows (r : Run ℝ) (e maxRange step ts : ℝ) (fuel sf : Nat) (rowsP : List (Row ℝ))
+    (hP : integrate r e maxRange step fRANGE ts fuel sf = .ok rowsP)
+    (hfull : ∀ row ∈ rowsP, row.flag.range = true) :
+    integrate r e maxRange step fALL ts fuel sf = .error .zeroDiv ∨
+    ∃ rowsX, integrate r e maxRange step fALL ts fuel sf = .ok rowsX ∧
+      rowsP = rowsX.filter (fun row => row.flag.range) ∧
+      ∀ row ∈ rowsX, row.flag.range = false → isEvent row = true := by
+  rcases C11_extra_superset_rows_tail r e maxRange step ts fuel sf rowsP hP with h | ⟨rowsX, tail, hX, hrows, ht, hev⟩
+  · exact Or.inl h
+  · have htail : tail = [] := by
+      rcases ht with ht | ⟨row, rfl, hrf⟩
+      · exact ht
+      · have := hfull row (by rw [hrows]; simp)
+        rw [hrf] at this
+        cases this
+    subst htail
+    refine Or.inr ⟨rowsX, hX, by simpa using hrows, ?_⟩
+    intro row hm hf
+    rcases hev row hm hf with h | ⟨-, h⟩
+    · exact h
+    · cases h
 
 end BC.Props.C11
